@@ -18,7 +18,7 @@ def stale_redirect(sig, ctx) -> bool:
     prog = ctx["program"]
     for sd in prog["stages"]:
         for td in sd["tasks"]:
-            if td["k"] == "jump" and tk.get(td["name"], {}).get("status") == "REDIRECT" \
+            if td["k"] in ("jump", "jump2") and tk.get(td["name"], {}).get("status") == "REDIRECT" \
                     and st.get(sd["ref"], {}).get("status") == "RUNNING":
                 return True
     return False
